@@ -23,7 +23,7 @@ RULE = ("histories = registration changes (message_callback_add with 2+ callback
 EXTRACT_TAGS = ["matcher"]
 GENERATED_ITEMS = []
 ASSUMPTIONS = [
-    "callbacks do not raise (with suppress_exceptions False an exception aborts the remaining handlers - outside the property)",
+    "with suppress_exceptions handlers may raise (each runs in its own try/except: the others still run - modelled, proved, compared); without it a raising handler ends the dispatch: modelled and compared, outside the property (theorem C15_propagating_exception_cuts_dispatch)",
     "no nested dispatch: a callback does not itself call loop_read()",
     "bytes.decode('utf-8') is a correct UTF-8 decoder; the model takes 'topic is decodable' as an input computed with it",
     "delivered topic names are valid topic names ([MQTT-3.3.2-2]: no wildcard characters) - a PUBLISH whose topic has a level "
@@ -50,10 +50,25 @@ def decodable(tb):
         return False
 
 
+class Boom(Exception):
+    """raised by a handler of the harness"""
+
+
+def suppressed(h):
+    return any(o[0] == "suppress" and o[1] for o in h)
+
+
+def raises_of(o):
+    return list(o[5]) if len(o) > 5 else []
+
+
 def enc_history(h):
-    """h: list of ("add", f, cb) | ("remove", f) | ("onmsg", b) | ("deliver", topic_bytes, qos, inner[, mid_ops])"""
+    """h: list of ("suppress", b) (client.suppress_exceptions, once, first) | ("add", f, cb) | ("remove", f) | ("onmsg", b)
+    | ("deliver", topic_bytes, qos, inner[, mid_ops[, raises]]) - raises[j]: the j-th invoked handler raises after its changes"""
     out, n = [], 0
     for o in h:
+        if o[0] == "suppress":
+            continue
         if o[0] == "deliver":
             for r in (o[4] if len(o) > 4 else []):     # changes between QoS 2 PUBLISH and PUBREL precede the dispatch
                 out += [1] + enc_regop(r)
@@ -63,11 +78,13 @@ def enc_history(h):
                 out.append(len(lst))
                 for r in lst:
                     out += enc_regop(r)
+            rs = raises_of(o)
+            out += [len(rs)] + [1 if b else 0 for b in rs]
             n += 1
         else:
             out += [1] + enc_regop(o)
             n += 1
-    return [n] + out
+    return [1 if suppressed(h) else 0, n] + out
 
 
 def enc_log(log):
@@ -87,6 +104,7 @@ class Recorder:
         self.cbs = {}
         self.log = []
         self.ran, self.msgs, self.inner, self.pos, self.executed = [], [], [], 0, []
+        self.raises = []
         self.on_message_fn = self._make(None)
         self.n_inner = 0
 
@@ -105,6 +123,8 @@ class Recorder:
                 for r in self.inner[j]:
                     self.apply(r)
                     self.executed.append(r)
+            if j < len(self.raises) and self.raises[j]:
+                raise Boom()
         handler.__name__ = "on_message" if k is None else f"cb_{k}"
         return handler
 
@@ -128,7 +148,18 @@ def run_history(h, proto=mqtt.MQTTv311):
     rec = Recorder(c)
     problems = []
     mid = 0
+    def read():
+        # a handler's exception propagates out of loop_read() unless suppress_exceptions is set
+        try:
+            return c.loop_read()
+        except Boom:
+            if c.suppress_exceptions:
+                problems.append("a handler's exception left loop_read() although suppress_exceptions is set")
+            return 0
     for o in h:
+        if o[0] == "suppress":
+            c.suppress_exceptions = bool(o[1])
+            continue
         if o[0] != "deliver":
             rec.apply(o)
             rec.log.append(("reg", o))
@@ -138,8 +169,9 @@ def run_history(h, proto=mqtt.MQTTv311):
         mid = mid % 65535 + 1
         payload = b"p%d" % mid
         rec.ran, rec.msgs, rec.inner, rec.pos, rec.executed = [], [], inner, 0, []
+        rec.raises = raises_of(o)
         s.feed(impl.publish_pkt(tb, payload, qos, mid if qos else 0, v5=v5))
-        rc = c.loop_read()
+        rc = read()
         if qos == 2:
             if rec.ran:
                 problems.append("QoS 2 message dispatched before PUBREL")
@@ -147,7 +179,7 @@ def run_history(h, proto=mqtt.MQTTv311):
                 rec.apply(r)
                 rec.log.append(("reg", r))
             s.feed(impl.ack("pubrel", mid))
-            rc = c.loop_read()
+            rc = read()
         if rc != 0:
             problems.append(f"loop_read returned {rc}")
         for m in rec.msgs:
@@ -166,13 +198,16 @@ def normalize(h):
     for o in h:
         if o[0] == "deliver" and len(o) > 4 and o[2] != 2:
             out += list(o[4])
-            out.append(o[:4])
+            out.append(o[:4] + (([], o[5]) if len(o) > 5 else ()))
         else:
             out.append(o)
     return out
 
 
 def topics_valid(h):
+    """inside the hypotheses of C15_all_histories: valid topic names, and suppress_exceptions or no raising handler"""
+    if not suppressed(h) and any(o[0] == "deliver" and any(raises_of(o)) for o in h):
+        return False
     return all(o[0] != "deliver" or not decodable(o[1]) or M.py_valid_topic(o[1].decode("utf-8")) for o in h)
 
 
@@ -215,6 +250,9 @@ def judge(items, dis, vio, st):
                         "what": ("handlers run differ from the registered callbacks whose filter matches (extracted checker c15_ok rejects the log); "
                                  if v != [1] else "") + "; ".join(pb) + f" impl log: {show(lg)}",
                         "signature": "c15-dispatch"})
+        if any(o[0] == "deliver" and any(raises_of(o)) for o in h):
+            st["histories_with_raising_handlers"] += 1
+            st["raising_handlers_suppressed"] += 1 if suppressed(h) else 0
         if not valid:
             st["outside_scope_histories(wildcard in a topic name)"] += 1
             if v != [1]:
@@ -224,7 +262,7 @@ def judge(items, dis, vio, st):
 def new_stats():
     return {"histories": 0, "deliveries": 0, "filtered_calls": 0, "on_message_calls": 0, "deliveries_with_2+_callbacks": 0,
             "in_callback_changes": 0, "nontrivial": 0, "outside_scope_histories(wildcard in a topic name)": 0,
-            "outside_scope_rejected_by_checker": 0}
+            "outside_scope_rejected_by_checker": 0, "histories_with_raising_handlers": 0, "raising_handlers_suppressed": 0}
 
 
 # ---------------------------------------------------------------- (1) exhaustive
@@ -239,15 +277,18 @@ SCRIPTS = [
 ALPHA = ([("add", f, k) for f in U for k in (1, 2)] + [("remove", f) for f in U]
          + [("onmsg", True), ("onmsg", False)]
          + [("deliver", t, None, sc) for t in T for sc in SCRIPTS])
+RAISE_PATTERNS = [[True], [False, True], [True, False, True]]
 
 
-def hist_from_index(idx, L, qos):
-    h = [("onmsg", True)]
+def hist_from_index(idx, L, qos, raising=None):
+    """raising = None: no handler raises; k: suppress_exceptions is set and every delivery uses RAISE_PATTERNS[k]"""
+    h = ([("suppress", True)] if raising is not None else []) + [("onmsg", True)]
+    rs = () if raising is None else ([], RAISE_PATTERNS[raising])
     for _ in range(L):
         idx, d = divmod(idx, len(ALPHA))
         o = ALPHA[d]
-        h.append(("deliver", o[1], qos, o[3]) if o[0] == "deliver" else o)
-    return h + [("deliver", t, qos, []) for t in T]
+        h.append((("deliver", o[1], qos, o[3]) + rs) if o[0] == "deliver" else o)
+    return h + [("deliver", t, qos, []) + rs for t in T]
 
 
 def _exh_job(job):
@@ -256,6 +297,8 @@ def _exh_job(job):
     B = 600
     for base in range(lo, hi, B):
         items = [(hist_from_index(i, L, q), mqtt.MQTTv311) for i in range(base, min(base + B, hi)) for q in (0, 1, 2)]
+        # the same histories with suppress_exceptions and raising handlers (one pattern per index, one QoS per index)
+        items += [(hist_from_index(i, L, i % 3, raising=i % len(RAISE_PATTERNS)), mqtt.MQTTv311) for i in range(base, min(base + B, hi))]
         judge(items, dis, vio, st)
     return st, dis, vio
 
@@ -317,15 +360,21 @@ def rand_regop(rng):
 
 
 def rand_history(rng):
-    h = [("onmsg", True)] if rng.random() < 0.8 else []
+    r0 = rng.random()
+    sup, praise = (True, 0.5) if r0 < 0.3 else ((False, 0.3) if r0 < 0.36 else (False, 0.0))
+    h = ([("suppress", True)] if sup else []) + ([("onmsg", True)] if rng.random() < 0.8 else [])
     for _ in range(rng.randrange(3, 31)):
         if rng.random() < 0.5:
             h.append(rand_regop(rng))
         else:
             inner = [[rand_regop(rng) for _ in range(rng.randrange(0, 3))] for _ in range(rng.randrange(0, 4))]
             d = ("deliver", rand_topic(rng), rng.randrange(3), inner)
-            if rng.random() < 0.3:
-                d = d + ([rand_regop(rng) for _ in range(rng.randrange(1, 3))],)
+            mid_ops = [rand_regop(rng) for _ in range(rng.randrange(1, 3))] if rng.random() < 0.3 else None
+            raises = [rng.random() < 0.5 for _ in range(rng.randrange(1, 5))] if rng.random() < praise else None
+            if raises is not None:
+                d = d + (mid_ops or [], raises)
+            elif mid_ops is not None:
+                d = d + (mid_ops,)
             h.append(d)
     return h
 
@@ -410,6 +459,7 @@ def _detuple(h):
         if o[0] == "deliver":
             inner = [[tuple(r) for r in lst] for lst in o[3]]
             rest = ([tuple(r) for r in o[4]],) if len(o) > 4 else ()
+            rest += ([bool(b) for b in o[5]],) if len(o) > 5 else ()
             out.append(("deliver", bytes(o[1]), o[2], inner) + rest)
         else:
             out.append(tuple(o))
@@ -424,7 +474,10 @@ def run(ctx, out):
           ("deliver", b"a/b", 2, [[("remove", "a/#")], [("add", "a/b", 5)], [("add", "#", 6)], [("add", "zz", 9)]]),
           ("deliver", b"a/b", 1, []), ("deliver", b"$SYS/x", 0, []), ("deliver", b"q", 1, [[("remove", "#")]]),
           ("deliver", b"q", 2, []), ("deliver", b"\xff\xfe", 0, [])]
+    # the same with suppress_exceptions and raising handlers, as in the Coq example
+    exs = [("suppress", True)] + [o if o[0] != "deliver" else o + (([],) if len(o) == 4 else ()) + ({b"a/b": [True, False, True], b"$SYS/x": [True]}.get(o[1], []) if True else [],) for o in ex]
     st, dis, vio = new_stats(), [], []
+    judge([(exs, mqtt.MQTTv311)], dis, vio, st)
     judge([(ex, mqtt.MQTTv311), (ex, mqtt.MQTTv5)], dis, vio, st)
     merge(out, "example", [(st, dis, vio)])
     try:
